@@ -143,6 +143,7 @@ class Ctx:
         self.feas_timeout_ms = feas_timeout_ms
         self.max_paths = max_paths
         self.assumptions = []          # path condition + assumed facts, in order
+        self.axioms = []               # global facts (literal constants); never retracted
         self.frames = []
         self.obligs = {}               # key -> Obligation
         self.counter = itertools.count()
@@ -188,10 +189,11 @@ class Ctx:
             c = z3.Const(f"lit:{type(value).__name__}:{value!r}", V)
             self.lits[key] = c
             idx = len(self.lits)
-            self.assumptions.insert(0, litid(c) == idx)
+            # facts about literal constants are global: they survive path restoration
+            self.axioms.append(litid(c) == idx)
             if isinstance(value, str):
-                self.assumptions.insert(0, is_str(c))
-                self.assumptions.insert(0, truthy(c) == z3.BoolVal(bool(value)))
+                self.axioms.append(is_str(c))
+                self.axioms.append(truthy(c) == z3.BoolVal(bool(value)))
         return self.lits[key]
 
     def _init_axioms(self):
@@ -235,6 +237,7 @@ class Ctx:
     def _check(self, extra, timeout_ms):
         s = z3.Solver()
         s.set("timeout", int(timeout_ms))
+        s.add(*self.axioms)
         s.add(*self.assumptions)
         s.add(*extra)
         t0 = time.time()
@@ -250,6 +253,7 @@ class Ctx:
         s = z3.SimpleSolver()
         s.set("timeout", int(self.feas_timeout_ms))
         s.set("smt.mbqi", False)
+        s.add(*self.axioms)
         s.add(*self.assumptions)
         s.add(cond)
         t0 = time.time()
@@ -360,13 +364,13 @@ class Ctx:
         cnt = sum(1 for k in self.obligs if k[0] == name and k[1] == self.path_sig())
         key = (name, self.path_sig(), cnt)
         if key not in self.obligs:
-            ob = Obligation(name, kind, list(self.assumptions), goal, key, self.case)
+            ob = Obligation(name, kind, None, goal, key, self.case)
             self.obligs[key] = ob
             if z3.is_true(goal_s):
                 ob.status, ob.detail = "unsat", "trivial"
             else:
                 t0 = time.time()
-                status, detail, backend = discharge(self.assumptions, goal, self.timeout_ms, name)
+                status, detail, backend = discharge(self.axioms + self.assumptions, goal, self.timeout_ms, name)
                 ob.time = time.time() - t0
                 self.solver_time += ob.time
                 ob.status, ob.detail, ob.backend = status, detail, backend
